@@ -401,8 +401,50 @@ func isSyncOn(file ssa.Value) func(ssa.Instruction) bool {
 		if p, isP := writePrimitive(ci); !isP || p != "File.Sync" {
 			return false
 		}
-		return sameValue(ci.Call.Value, file)
+		if sameValue(ci.Call.Value, file) {
+			return true
+		}
+		// inside a helper the walker descended into (`syncUnlessNoSync(file, options)`): the Sync is on the helper's
+		// parameter, and every call of the helper in file's function passes that very file for it
+		fileFn := valueParent(file)
+		for _, og := range origins(ci.Call.Value) {
+			pp, isP := og.(*ssa.Parameter)
+			if !isP || fileFn == nil || pp.Parent() == fileFn {
+				continue
+			}
+			h := pp.Parent()
+			pi := -1
+			for k, q := range h.Params {
+				if q == pp {
+					pi = k
+				}
+			}
+			ks := callsToFn(fileFn, h)
+			all := len(ks) > 0 && pi >= 0
+			for _, k := range ks {
+				if pi >= len(k.Call.Args) || !sameValue(k.Call.Args[pi], file) {
+					all = false
+				}
+			}
+			if all {
+				return true
+			}
+		}
+		return false
 	}
+}
+
+// valueParent: the function an SSA value belongs to (nil for constants / globals).
+func valueParent(v ssa.Value) *ssa.Function {
+	switch x := v.(type) {
+	case *ssa.Parameter:
+		return x.Parent()
+	case *ssa.FreeVar:
+		return x.Parent()
+	case ssa.Instruction:
+		return x.Parent()
+	}
+	return nil
 }
 
 func ruleDur2(c *Ctx) []*Ob {
@@ -1449,6 +1491,41 @@ func ruleRef14(c *Ctx) []*Ob {
 			}
 			if param == nil {
 				continue
+			}
+			if !exported {
+				// a private helper: its argument is the application's only if, at a call site, it is (derived from) a
+				// non-receiver parameter of the exported caller; what the caller created or acquired itself is the
+				// caller's to release, also through a helper (`abandon(iter)`)
+				pi := -1
+				for k, p := range f.Params {
+					if p == param {
+						pi = k
+					}
+				}
+				fromApp := false
+				for _, cs := range c.Callers(f) {
+					cc := cs.Instr.Common()
+					if cc.StaticCallee() != f || pi < 0 || pi >= len(cc.Args) {
+						continue
+					}
+					g := cs.Instr.Parent()
+					for _, og := range origins(cc.Args[pi]) {
+						if p2, isP := og.(*ssa.Parameter); isP && p2.Parent() == g {
+							isRecv := g.Signature.Recv() != nil && len(g.Params) > 0 && g.Params[0] == p2
+							if !isRecv {
+								fromApp = true
+							}
+						}
+						if ta, isTA := og.(*ssa.TypeAssert); isTA {
+							if p2, isP := ta.X.(*ssa.Parameter); isP && p2.Parent() == g {
+								fromApp = true
+							}
+						}
+					}
+				}
+				if !fromApp {
+					continue
+				}
 			}
 			n++
 			o.add(fn, "release of argument "+param.Name(), c.instrPos(e.instr), false,
